@@ -81,6 +81,13 @@ pub fn run(ctx: &Ctx) -> Report {
             if let Ok(mut rd) = ShapeReader::new(Src::new(shp.clone())) {
                 o.push(("iter", items(rd.iter_shapes(), cap)));
             }
+            // a source that hands out only a few bytes per read call (pipe / socket like): from the
+            // first byte of the header on
+            let chunk = 1 + idx % 7;
+            match ShapeReader::new(Src::chunked(shp.clone(), crate::iomon::Chunking::Fixed(chunk))) {
+                Ok(mut rd) => o.push(("iter_chunked", items(rd.iter_shapes(), cap))),
+                Err(e) => o.push(("iter_chunked", J::Arr(vec![J::obj(vec![("err", J::s(format!("open: {}", err_class(&e))))])]))),
+            }
             }
             // the same file opened by path (no .shx next to it unless the manifest says so): the
             // path-based constructors wrap the file in their own BufReader
